@@ -512,9 +512,14 @@ impl Sim {
 
     pub fn handle_datagram(&mut self, node: usize, d: Dgram) {
         let now = self.t();
-        *self.nodes[node].recv_from.entry(d.from).or_default() += d.data.len() as u64;
         let mut buf = Vec::new();
         let ev = self.nodes[node].ep.handle(now, d.from, None, d.ecn, BytesMut::from(&d.data[..]), &mut buf);
+        // bytes are credited to the sender's address when the datagram is consumed: at once for datagrams the
+        // endpoint itself answers or turns into a new connection, and when the connection handles the event for
+        // datagrams routed to an existing connection (see drive_conn)
+        if !matches!(ev, Some(DatagramEvent::ConnectionEvent(..))) {
+            *self.nodes[node].recv_from.entry(d.from).or_default() += d.data.len() as u64;
+        }
         match ev {
             None => {}
             Some(DatagramEvent::ConnectionEvent(ch, ev)) => {
@@ -629,6 +634,7 @@ impl Sim {
             let Some((ev, len, from)) = ev else { break };
             self.nodes[node].conns.get_mut(&ch).unwrap().obs.last_rx_at = Some(nowoff);
             let before = if self.model_trace { Some(self.nodes[node].conns[&ch].conn.verif_snapshot()) } else { None };
+            *self.nodes[node].recv_from.entry(from).or_default() += len as u64;
             let remote_before = self.nodes[node].conns[&ch].conn.remote_address();
             self.nodes[node].conns.get_mut(&ch).unwrap().conn.handle_event(ev);
             let remote_after = self.nodes[node].conns[&ch].conn.remote_address();
